@@ -41,6 +41,28 @@ def fill(claim, na):
         "the line (checked structurally).",
         "DESIGN.md section 2, C06",
     )
-    for p in ["C01", "C02", "C03", "C04", "C05", "C07", "C08", "C09", "C10",
+    claim(
+        "C07",
+        "fixed-column layout calculus: symbolic (min,max) width of every concatenated piece "
+        "bounded by guards extracted from the compatibility check, compared with the reader's "
+        "slice constants; dtype-aware rounding-carry arithmetic; constant folding of the "
+        "hybrid-36 offsets (custom ast analysis, Cython source lowered)",
+        "Decides the fixed-column clause, the 'input exceeding a column is refused' clause and "
+        "hybrid-36 offset agreement: every piece of an ATOM/HETATM, CRYST1 and CONECT record has "
+        "min width = max width = the width of the slice the reader uses for that field (justified "
+        "to a constant, a literal, or bounded on both sides by a guard that is evaluated before "
+        "the first record is written); W.Df fields are guarded on the rounded value (or no "
+        "rounding carry is representable in the field's dtype); guards cover all models and all "
+        "three axes; NaN coordinates refused; each reader assignment uses its own slice; "
+        "set_structure starts from an empty line list on every path; the ID wrap is the identity "
+        "on 1..max and applied exactly to positive IDs; for lengths 4 and 5 decode undoes the "
+        "offset encode applies, the ranges are contiguous and max_hybrid36_number is the last "
+        "accepted value. Not decided: value round trip, model indexing, bond selection for CONECT.",
+        "Trusted: summary of number_of_integer_digits (checked structurally), np.round/format "
+        "agreement on the integer part, float32 coordinates (checked in atoms.py), float64 "
+        "annotations, the frozen writer-variable/slice pairing table in sa/props/C07.py.",
+        "DESIGN.md section 2, C07",
+    )
+    for p in ["C01", "C02", "C03", "C04", "C05", "C08", "C09", "C10",
               "C11", "C12", "C13", "C14", "C15", "C16", "C17", "C18", "C19"]:
         na(p, PENDING)
